@@ -13,10 +13,16 @@ EXPLANATION = ('Deductive part (all shots, all iterations): the integration loop
                'The entry clause gives the initial state (muzzle displaced by the canted sight height, launched along the '
                'barrel direction at muzzle velocity); _init_trajectory harnesses give barrel elevation/azimuth from look, '
                'zero, relative and cant angles. Convergence from consistency is the Lax/Dahlquist theorem (assumed, A-NUM). '
-               'Bounded stand-ins: Richardson step-halving on sampled shots, and the closed-form vacuum parabola.')
+               'Vacuum (second contract on the same loop, tag vacuum: the station density ratio is zero, which the '
+               'atmosphere contract propagates to every altitude): with the ghost variable S2 = sum of squared time steps '
+               'the invariant v = v0 + g t, p = p0 + v0 t + g (t^2 + S2)/2, 0 <= S2 <= calc_step t is inductive for every '
+               'wind, cant, angle and table, so every state lies within |g| calc_step t / 2 of the closed-form parabola '
+               '(step clause + lemma_vacuum_bound) - discharged, no longer bounded. '
+               'Bounded stand-ins: Richardson step-halving on sampled shots; the vacuum rows are also still compared natively.')
 TEXT = ('proof of consistency (every step from every state is the stated Euler map; initial state; wind/density/Mach '
-        'arguments are those of the current position) + assumed convergence theorem + bounded error-constant and vacuum '
-        'checks: the headline clause (convergence to the exact solution) is not decided deductively, hence "other"')
+        'arguments are those of the current position; in a vacuum every state is within |g| step t / 2 of the closed-form '
+        'parabola, by a ghost-variable invariant) + assumed convergence theorem + bounded error-constant check: the '
+        'headline clause (convergence to the exact solution) is not decided deductively, hence "other"')
 NOTE = ('A-REAL, A-PY, A-LOG, A-LIBM, A-NUM (a consistent one-step method converges); hypothesis H-fwd (the projectile keeps '
         'moving down-range: part of the statement\'s antecedent); callee contracts assumed at call sites are each verified '
         'on their own; trusted: z3 4.8.12/5.1, cvc5, CPython ast, the VC generator')
@@ -26,7 +32,10 @@ EXTRA_ASSUMPTIONS = ['A-NUM: a consistent one-step method for an ODE with locall
                      'H-fwd: the projectile keeps moving down-range (antecedent of the property), assumed at every step']
 NOT_DECIDED = ['convergence to the exact ODE solution as the step is refined (A-NUM)',
                'error at the default step <= small multiple of the step-halving change: bounded stand-in only',
-               'vacuum closed-form parabola: bounded stand-in only (the vacuum invariant with ghost sum dt^2 was not built)']
+               'vacuum: the STATE after every step is proved to be on the discrete parabola (within |g| calc_step t / 2 of the '
+               'closed form); that recorded ROWS, interpolated linearly between two such states, are within the same bound is '
+               'the filter contract (C03/C05) composed on paper; "standard gravity" is the configured cGravityConstant, '
+               'whose default is checked under C18']
 EXTRA = ['bounded_step_halving', 'bounded_vacuum_parabola', 'rt_integrate', 'lemma_vacuum_bound']
 
 
